@@ -1,4 +1,5 @@
 import GwbVerif.Properties.C18
+import GwbVerif.Properties.C18Sphere
 open Gwb
 #print axioms C18_counts
 #print axioms C18_connectivity_in_range
@@ -13,6 +14,15 @@ open Gwb
 #print axioms C18_annulus_nt_ge
 #print axioms C18_filter_selection
 #print axioms C18_filter
+#print axioms C18_sphere_total
+#print axioms C18_sphere_counts_partial
+#print axioms C18_sphere_connectivity_in_range
+#print axioms C18_sphere_cell_structure
+#print axioms C18_sphere_corner_positions
+#print axioms C18_sphere_coordinates
+#print axioms C18_sphere_project_radius_field
+#print axioms C18_sphere_layers_field
+#print axioms C18_sphere_centre_field
 #check @C18_counts
 #check @C18_connectivity_in_range
 #check @C18_cell_corners
@@ -26,3 +36,12 @@ open Gwb
 #check @C18_annulus_nt_ge
 #check @C18_filter_selection
 #check @C18_filter
+#check @C18_sphere_total
+#check @C18_sphere_counts_partial
+#check @C18_sphere_connectivity_in_range
+#check @C18_sphere_cell_structure
+#check @C18_sphere_corner_positions
+#check @C18_sphere_coordinates
+#check @C18_sphere_project_radius_field
+#check @C18_sphere_layers_field
+#check @C18_sphere_centre_field
